@@ -1,8 +1,8 @@
 #!/verif/.venv/bin/python
 # Replay of a solver counterexample against the unmodified code (no shims).
-# property=C17 kernel=results label=k4:results_values
+# property=C17 kernel=config label=k3:config_roundtrip_completes
 import sys
 sys.path[:0] = ['/repo' + "/pulser-core", '/repo' + "/pulser-simulation", "/verif"]
 from symx.replay import replay
-sys.exit(replay(check='checks.c17', kernel='results', shape={'n_obs': 1, 'tags': ['expectation'], 'n_times': 4, 'kinds': ['cseq']},
-                assignment={'total_duration': 1, 't0_0': '1/1024', 'v0_0': '0/1', 't0_1': '1/512', 'v0_1': '0/1', 't0_2': '3/1024', 'v0_2': '0/1', 't0_3': '1/256', 'v0_3': '0/1'}, label='k4:results_values'))
+sys.exit(replay(check='checks.c17', kernel='config', shape={'obs': ['bitstrings'], 'times': [True], 'noise': 'eff'},
+                assignment={'o0_t0': '0/1', 'o0_t1': '1/2', 'eff_rate': '1152921504606847/1152921504606846976'}, label='k3:config_roundtrip_completes'))
